@@ -206,7 +206,7 @@ func c11ConcUnit(pname string, pg *Prog, xs []string, t string, tier string) *Un
 	root.Deps = append(root.Deps, D(t))
 	pg2.Tasks = append(pg2.Tasks, root)
 	sc := scen(fmt.Sprintf("conc/%s/%s||%s", pname, strings.Join(xs, ","), t), pg2, vlab.Options{}, "root")
-	sc.Files["d1/.keep"], sc.Files["d2/.keep"] = "", ""
+	sc.Files["d1/.keep"], sc.Files["d2/.keep"], sc.Files["ind.sh"] = "", "", "echo ind-$X\n"
 	var once sync.Once
 	var base []string
 	tsite := fmt.Sprintf("@>root.d%d", len(xs))
@@ -236,6 +236,11 @@ func c11ConcUnit(pname string, pg *Prog, xs []string, t string, tier string) *Un
 			base = linesOf(runFree(alone, dir).Trace, 1)
 		})
 		got := sub(x.Trace)
+		if x.Code != 0 && !x.Res.Deadlock && !x.Res.Horizon && x.Res.Panic == "" {
+			// (none of these programs has a failing command: a failing invocation is either a defect or a
+			// scenario that lacks a file, and must not pass for "nothing differs")
+			out = append(out, vlab.V("C11", "spurious_failure", "concurrent", fmt.Sprintf("program %s, %v next to %s: status %d (%s)", pname, xs, t, x.Code, firstN(x.ErrStr, 160))))
+		}
 		if x.Code == 0 && strings.Join(got, "\n") != strings.Join(base, "\n") {
 			out = append(out, vlab.V("C11", "depends_on_concurrent_tasks", diffField(base, got),
 				fmt.Sprintf("program %s: with %v running concurrently %s runs with\n  %s\nbut alone it runs with\n  %s", pname, xs, t, strings.Join(got, "\n  "), strings.Join(base, "\n  "))))
